@@ -365,6 +365,7 @@ VH_OP(det) {
   const int reps = main.o.count("reps") ? atoi(main.o.at("reps").c_str()) : 2;
   const bool expert = main.o.count("expert") > 0;
   const size_t nh = jobs.size() - 1;
+  const bool reset_main = !expert && main.o.count("reset") > 0;
 
   // ---- reference
   EncOut R;
@@ -381,8 +382,11 @@ VH_OP(det) {
       R = encode_with(*ee, &buf);
     } else {
       Encoder e;
-      for (size_t h = 1; h <= nh; ++h)
-        apply_opts(e, jobs[h].o, [](int k) { return static_cast<GeometryAttribute::Type>(k); });
+      // reset=1: the reused object calls Encoder::Reset() before the main job; the reference is then a fresh
+      // Encoder that receives the main job's setters only (Reset() restores the default option set)
+      if (!reset_main)
+        for (size_t h = 1; h <= nh; ++h)
+          apply_opts(e, jobs[h].o, [](int k) { return static_cast<GeometryAttribute::Type>(k); });
       apply_opts(e, main.o, [](int k) { return static_cast<GeometryAttribute::Type>(k); });
       R = encode_with(e, main, &buf);
     }
@@ -408,8 +412,9 @@ VH_OP(det) {
       x = encode_with(*ee, &buf);
     } else {
       Encoder e;
-      for (size_t h = 1; h <= nh; ++h)
-        apply_opts(e, jobs[h].o, [](int k) { return static_cast<GeometryAttribute::Type>(k); });
+      if (!reset_main)
+        for (size_t h = 1; h <= nh; ++h)
+          apply_opts(e, jobs[h].o, [](int k) { return static_cast<GeometryAttribute::Type>(k); });
       apply_opts(e, main.o, [](int k) { return static_cast<GeometryAttribute::Type>(k); });
       x = encode_with(e, main, &buf);
     }
@@ -453,6 +458,7 @@ VH_OP(det) {
     } else {
       Encoder e;
       run([&](const Job &j, EncoderBuffer *buf) {
+        if (reset_main && &j == &main) e.Reset();
         apply_opts(e, j.o, [](int k) { return static_cast<GeometryAttribute::Type>(k); });
         return encode_with(e, j, buf);
       });
